@@ -55,7 +55,8 @@ def prove(run):
     from renormalizer.mps import Mpo, gs
     from renormalizer.mps.lib import Environ
     from renormalizer.mps.svd_qn import get_qn_mask
-    shapes = [("spinqn", 3), ("holstein", 3)] if run.tier == "quick" else [("spinqn", 3), ("spinqn", 4), ("holstein", 3), ("holstein", 4), ("spin2qn", 3), ("spin", 3)]
+    # "-flux": complex Hermitian Hamiltonians (complex hopping amplitudes): transposed and conjugated contractions differ
+    shapes = [("spinqn", 3), ("holstein", 3), ("spinqn-flux", 3)] if run.tier == "quick" else [("spinqn", 3), ("spinqn", 4), ("holstein", 3), ("holstein", 4), ("spin2qn", 3), ("spin", 3), ("spinqn-flux", 3), ("holstein-flux", 3), ("spinqn-flux", 4)]
     ncase = 0
     for name, n in shapes:
         rng = np.random.default_rng([run.seed, n, 881, sum(map(ord, name))])
@@ -118,6 +119,19 @@ def prove(run):
                                 a.optimize_config.method = method
                                 hdiag, expr = gs.get_ham_iterative(a, mask, np.asarray(lt), np.asarray(rt), cmo, omega)
                                 decide(run, f"post:get_ham_iterative:diagonal[{tag}]", "get_ham_iterative", np.asarray(hdiag, dtype=object), np.array([ref[i, i] for i in range(ref.shape[0])], dtype=object), case)
+                                # the matrix-free product handed to Davidson / PRIMME: applied to every unit vector of the allowed entries it is the same matrix
+                                nvar = int(np.sum(mask))
+                                cols = []
+                                for j_ in range(nvar):
+                                    e_ = np.empty(nvar, dtype=object)
+                                    e_.fill(Poly())
+                                    e_[j_] = Poly.const(1)
+                                    cst = np.empty(mask.shape, dtype=object)
+                                    cst.fill(Poly())
+                                    np.place(cst, mask, e_)
+                                    cols.append(np.asarray(expr(cst), dtype=object)[mask])
+                                decide(run, f"post:get_ham_iterative:matrix_free_product_is_the_projected_hamiltonian[{tag}]", "get_ham_iterative",
+                                       np.array(cols, dtype=object).T, ref, case, fields={"method": method, "omega": omega is not None})
                             except Exception as e:
                                 run.oblig(f"post:get_ham_iterative:diagonal[{tag}]", "get_ham_iterative", "S(symx)", "undecided", detail=f"not executable on symbolic tensors: {type(e).__name__}: {e}")
     run.extra.setdefault("symx", {})["C08"] = {"local_problems": ncase, "shims": SH.SHIMS}
